@@ -178,11 +178,11 @@ pub fn run_backoff(seed: u64, size: Size, out: &mut Vec<String>) -> (usize, usiz
                         continue;
                     }
                     cfgs.push(json!({"src":"exp","kind":"exp","ini":ini,"mnum":mn,"mden":md,"cap":cap,"f2":0,"unit":unit}));
-                    if md == 1 && cap != 0 {
+                    if md == 1 {
                         for f2 in [0u64, 1, 2] {
                             cfgs.push(json!({"src":"rand","kind":"exp","ini":ini,"mnum":mn,"mden":md,"cap":cap,"f2":f2,"unit":unit}));
                         }
-                        if mn == 2 {
+                        if mn == 2 && cap != 0 {
                             cfgs.push(json!({"src":"rc_exp","kind":"exp","ini":ini,"mnum":2,"mden":1,"cap":cap,"f2":0,"unit":unit}));
                             cfgs.push(json!({"src":"rc_rand","kind":"exp","ini":ini,"mnum":2,"mden":1,"cap":cap,"f2":1,"unit":unit}));
                         }
